@@ -123,7 +123,7 @@ def enumerated(tier, seed):
     for c in corpus:
         c["files"] = {c["entry"]: c["files"][c["entry"]]}
     labels = [dict(c, family="labels") for c in c04.label_cases()]
-    firsts = [dict(c, family=c["family"]) for c in c04.first_statement_cases() + c04.last_statement_cases()]
+    firsts = [dict(c, family=c["family"]) for c in c04.first_statement_cases() + c04.last_statement_cases() + c04.file_name_cases()]
     return corpus + c04.size_cases() + labels + firsts + c04.string_cases(tier, seed)
 
 
